@@ -250,22 +250,24 @@ theorem stable_tagNoCase_e : SepStable (tagNoCase ['e']) := by
         · simp [hu] at h
       · simp [hc]
 
-theorem stable_intConstant : ∀ d, SepStable (IntConstant.parse d)
-  | 0 => fun _ _ _ => ⟨fun _ _ h => (by cases h), fun h => (by cases h)⟩
-  | d + 1 => by
-    unfold IntConstant.parse
-    exact SepStable.alt_cons (SepStable.skip (stable_tag (by decide)) (SepStable.pmapChecked _ (stable_intConstant d)))
-      (SepStable.alt_cons (SepStable.skip (stable_tag (by decide)) (SepStable.mapRes _ stable_hexDigit1))
-        (SepStable.alt_cons (SepStable.mapRes _ stable_digit1) SepStable.alt_nil))
+theorem stable_unsigned : SepStable IntConstant.unsigned := by
+  unfold IntConstant.unsigned
+  exact SepStable.alt_cons (SepStable.skip (stable_tag (by decide)) (SepStable.mapRes _ stable_hexDigit1))
+    (SepStable.alt_cons (SepStable.mapRes _ stable_digit1) SepStable.alt_nil)
 
-theorem stable_exponent (d : Nat) : SepStable (exponent d) :=
-  SepStable.andThen stable_tagNoCase_e (fun _ => SepStable.andThen (stable_intConstant d) (fun _ => SepStable.ret _))
+theorem stable_intConstant : SepStable IntConstant.parse := by
+  unfold IntConstant.parse
+  exact SepStable.alt_cons (SepStable.skip (stable_tag (by decide)) (SepStable.pmapChecked _ stable_unsigned))
+    (SepStable.alt_cons stable_unsigned SepStable.alt_nil)
 
-theorem stable_doubleBody (d : Nat) : SepStable (doubleBody d) := by
+theorem stable_exponent : SepStable exponent :=
+  SepStable.andThen stable_tagNoCase_e (fun _ => SepStable.andThen stable_intConstant (fun _ => SepStable.ret _))
+
+theorem stable_doubleBody : SepStable doubleBody := by
   unfold doubleBody
   have hd := stable_digit1
   have hdot : SepStable (tag ['.']) := stable_tag (by decide)
-  have he := stable_exponent d
+  have he := stable_exponent
   exact SepStable.alt_cons
     (SepStable.andThen hd fun _ => SepStable.andThen hdot fun _ => SepStable.andThen (SepStable.opt hd) fun _ =>
       SepStable.andThen (SepStable.opt he) fun _ => SepStable.ret _)
@@ -274,24 +276,24 @@ theorem stable_doubleBody (d : Nat) : SepStable (doubleBody d) := by
         SepStable.andThen (SepStable.opt he) fun _ => SepStable.ret _)
       (SepStable.alt_cons
         (SepStable.andThen hd fun _ => SepStable.andThen stable_tagNoCase_e fun _ =>
-          SepStable.andThen (stable_intConstant d) fun _ => SepStable.ret _)
+          SepStable.andThen stable_intConstant fun _ => SepStable.ret _)
         SepStable.alt_nil))
 
-theorem stable_double (d : Nat) : SepStable (DoubleConstant.parse d) := by
-  have hinner : SepStable (Idl.andThen (opt (tag ['-'])) fun _ => Idl.andThen (opt (tag ['+'])) fun _ => doubleBody d) :=
+theorem stable_double : SepStable DoubleConstant.parse := by
+  have hinner : SepStable (Idl.andThen (opt (tag ['-'])) fun _ => Idl.andThen (opt (tag ['+'])) fun _ => doubleBody) :=
     SepStable.andThen (SepStable.opt (stable_tag (by decide))) fun _ =>
-      SepStable.andThen (SepStable.opt (stable_tag (by decide))) fun _ => stable_doubleBody d
-  have hgood : Good d (Idl.andThen (opt (tag ['-'])) fun _ => Idl.andThen (opt (tag ['+'])) fun _ => doubleBody d) := by
+      SepStable.andThen (SepStable.opt (stable_tag (by decide))) fun _ => stable_doubleBody
+  have hgood : Good 0 (Idl.andThen (opt (tag ['-'])) fun _ => Idl.andThen (opt (tag ['+'])) fun _ => doubleBody) := by
     unfold doubleBody; good_tac
   intro s r hr
   rw [double_of_body, double_of_body]
   exact SepStable.mapRes _ (SepStable.recognize hinner (fun s a s' h => hgood.suffix h)) s r hr
 
 /-- `double_rt` -/
-theorem double_rt {t r : List Char} (h : doubleOk t = true) (hr : Sep r) {d : Nat} (hd : t.length < d) :
-    DoubleConstant.parse d (t ++ r) = .ok t r := by
+theorem double_rt {t r : List Char} (h : doubleOk t = true) (hr : Sep r) :
+    DoubleConstant.parse (t ++ r) = .ok t r := by
   unfold doubleOk at h
-  cases e : DoubleConstant.parse (t.length + 1) t with
+  cases e : DoubleConstant.parse t with
   | ok t' s' =>
     rw [e] at h
     cases s' with
@@ -299,10 +301,8 @@ theorem double_rt {t r : List Char} (h : doubleOk t = true) (hr : Sep r) {d : Na
     | nil =>
       simp only [decide_eq_true_eq] at h
       subst h
-      have := ((stable_double (t'.length + 1)) t' r hr).1 t' [] e
-      simp only [List.nil_append] at this
-      have hext := ext_double (d := t'.length + 1) (d' := d) (by omega) (t' ++ r) (by rw [this]; intro h; cases h)
-      rw [hext, this]
+      have := (stable_double t' r hr).1 t' [] e
+      simpa using this
   | err => rw [e] at h; cases h
   | fail => rw [e] at h; cases h
   | panic m => rw [e] at h; cases h
@@ -314,7 +314,7 @@ theorem double_head {t : List Char} (h : doubleOk t = true) :
   unfold doubleOk at h
   cases t with
   | nil =>
-    have : DoubleConstant.parse 1 [] = .err := double_err_hd 1 (by rfl) (by rfl) (by rfl)
+    have : DoubleConstant.parse [] = .err := double_err_hd (by rfl) (by rfl) (by rfl)
     simp [this] at h
   | cons c x =>
     refine ⟨c, x, rfl, ?_⟩
@@ -323,8 +323,8 @@ theorem double_head {t : List Char} (h : doubleOk t = true) :
     by_cases h3 : c = '.'; · exact Or.inr (Or.inr (Or.inl h3))
     by_cases h4 : isDecDigit c = true; · exact Or.inr (Or.inr (Or.inr h4))
     exfalso
-    have : DoubleConstant.parse ((c :: x).length + 1) (c :: x) = .err :=
-      double_err_hd _ (by rw [hdP_cons]; simp [h1, h2]) (by rw [hdP_cons]; simp [h4]) (by rw [hdP_cons]; simp [h3])
+    have : DoubleConstant.parse (c :: x) = .err :=
+      double_err_hd (by rw [hdP_cons]; simp [h1, h2]) (by rw [hdP_cons]; simp [h4]) (by rw [hdP_cons]; simp [h3])
     rw [this] at h; cases h
 
 end Pilota.Idl
